@@ -9,6 +9,7 @@ import (
 	"github.com/boltdb/bolt"
 	"github.com/skycoin/skycoin/src/cipher"
 	"github.com/skycoin/skycoin/src/coin"
+	"github.com/skycoin/skycoin/src/daemon"
 	"github.com/skycoin/skycoin/src/transaction"
 	"github.com/skycoin/skycoin/src/visor"
 	"github.com/skycoin/skycoin/src/visor/dbutil"
@@ -42,6 +43,7 @@ func (n *node) ops(focus string) []op {
 		}
 		out = append(out, op{"inject-foreign", t.Name})
 		out = append(out, op{"inject-user", t.Name})
+		out = append(out, op{"inject-user-gateway", t.Name})
 	}
 	if n.W.Publisher {
 		for _, dt := range []string{"1s", "1h", "1e7s"} {
@@ -77,6 +79,13 @@ func inFocus(prop string, o op) bool {
 	hdr := o.Kind == "block" && (strings.HasPrefix(o.Arg, "hdr:") || strings.HasPrefix(o.Arg, "valid2:") || o.Arg == "signed-by-intruder" || o.Arg == "null-signature" ||
 		o.Arg == "sig-recid-flipped" || o.Arg == "genesis-again" || o.Arg == "head-again" || strings.Contains(o.Arg, "header-kept") || o.Arg == "no-transactions")
 	badBody := o.Kind == "block" && !hdr && !strings.HasPrefix(o.Arg, "valid")
+	if strings.HasPrefix(o.Arg, "valid-fanout200") || o.Arg == "fanout-200-G" {
+		// a 200-output block / transaction: only where the unspent set itself is the subject (it makes every later state large)
+		return (prop == "C01" || prop == "C02") && o.Kind == "block"
+	}
+	if o.Kind == "inject-user-gateway" {
+		return prop == "C06"
+	}
 	if o.Kind == "block-after-failed-write" {
 		return prop == "C04" // fault injection into the commit: the "appended only if…, unchanged otherwise" clause of C04
 	}
@@ -98,6 +107,9 @@ func inFocus(prop string, o op) bool {
 			// two block times: right after the head, and an hour later - coin hours accrue per coin, so outputs of different
 			// size change their fee rank with the time base the publisher uses (it must be the head time)
 			return o.Arg == "1s" || o.Arg == "1h"
+		}
+		if o.Kind == "inject-foreign" {
+			return o.Arg == "ladder-4-underpaid"
 		}
 		if o.Kind == "inject-user" {
 			switch o.Arg {
@@ -179,17 +191,21 @@ func (n *node) apply1(o op, check bool, fail failer) string {
 	}
 	m := n.M
 	switch o.Kind {
-	case "inject-foreign", "inject-user":
+	case "inject-foreign", "inject-user", "inject-user-gateway":
 		t := n.tx(o.Arg)
 		if t == nil {
 			return "n/a"
 		}
-		user := o.Kind == "inject-user"
+		user := o.Kind != "inject-foreign"
 		_, before := m.Pool[t.Hash()]
 		var got string
 		var known bool
 		pan, msg := catch(func() {
-			if user {
+			if o.Kind == "inject-user-gateway" {
+				// the same user submission through the daemon's gateway method (the no-broadcast entry point of the API)
+				err := daemon.VerifGatewayInjectTransaction(n.V, *t)
+				known, got = before, injectClass(nil, err)
+			} else if user {
 				k, _, _, err := n.V.InjectUserTransaction(*t)
 				known, got = k, injectClass(nil, err)
 			} else {
